@@ -7,6 +7,7 @@ Import ListNotations.
 Definition seq_map_shape : map_shape := MapYieldEachInOrder.
 Definition pool_map_shape : map_shape := MapExecutorMap.
 Definition shm_slice : slice_kind := SliceRecorded.
+Definition reducer_dispatch : list reduce_rule := [RTensorCSR; RTensorCSC; RTensorTorch; RStorageTorch; ROwnReduction].
 Definition run_pipeline_steps : list rp_step := [RPQueryFromUserId; RPItemsIfTestItems; RPExtraOverride; RPRunAll; RPCopyOutputs].
 Definition batch_loop_shape : batch_loop := AddEachOutputUnderItsKey.
 Definition pool_shutdown : list shutdown_step := [ShutPool; ShutManager].
